@@ -1,46 +1,64 @@
 """C06 — Each training step applies exactly the contrastive-divergence update.
 
-Every case is one REAL call of `fit` on a real Positive/Complex/DensityMatrix state with
+Every fit case is one or two REAL calls of `fit` on one real Positive/Complex/DensityMatrix state with
   * a RECORDING optimizer class (torch.optim.SGD subclass) passed through `optimizer=`: at every step() it
     records the lr of every param group, a copy of every parameter's .grad and .data before and after the real step;
   * a RECORDING scheduler class (StepLR subclass) through `scheduler=` (or scheduler=None);
-  * `compute_batch_gradients` and `rbm_am.gibbs_steps` wrapped ON THE INSTANCE, purely as OBSERVATION points:
-    (samples_batch, neg_batch, bases_batch), the parameters current at that batch, the positive phase
-    (state.positive_phase_gradients evaluated at those parameters), the returned gradient vectors, and whatever
-    Gibbs chains were run (start, number of steps, end state).  Nothing is demanded about how often or in which
-    form these internal methods are called;
+  * `compute_batch_gradients` and `rbm_am.gibbs_steps` wrapped ON THE INSTANCE and `torch.bernoulli` wrapped in this
+    process, purely as OBSERVATION points: (samples_batch, neg_batch, bases_batch), the parameters current at that
+    batch, the positive phase (state.positive_phase_gradients at those parameters), the returned gradient vectors,
+    every Bernoulli draw made while the batch gradient was computed (probabilities and outcomes);
   * a recording callback (epoch / batch boundaries).
+  In ~20 % of the cases (and in fixed cases that always run first) `fit` is called a SECOND time on the same state
+  with another lr / scheduler / k / negative batch size: every per-step relation applies unchanged to the second run.
 
 Property oracle (independent numpy, on what the optimizer saw): for every optimizer step
-  grad(rbm_am) == positive_phase - (sum_{v in vk} grad E(v)) / |neg_batch|   (grad E recomputed in numpy), where
-      k == 0: vk is the negative batch itself;  k > 0: vk is the end of an observed chain that starts from the
-      negative batch and totals k steps (if the gradient demonstrably uses another observed chain: failing input;
-      if no chain is observable: counted `vk_unobserved`, no verdict on that batch),
+  grad(rbm_am) == positive_phase - (sum_{v in vk} grad E(v)) / |neg_batch|   (grad E recomputed in numpy), where vk
+      are "the states reached by k Gibbs steps from the negative-phase batch":
+      - k == 0: vk is the negative batch itself;
+      - k > 0: the Bernoulli draws recorded during the batch are read BY CONTENT (C05's interpret_run, with the exact
+        conditionals sigmoid(W v + c), sigmoid(U v + d), sigmoid(h W + a U + b) in numpy) as block-Gibbs steps from
+        the negative batch; vk must be the visible state after exactly k such steps.  If the gradient demonstrably
+        uses recorded draws that are not that state (other number of steps, other start, visible units driven by
+        hidden probabilities, hidden layer not redrawn, ...): failing input.  If the draws are not observable
+        (sampling by other means) the case is decided by the STATISTICAL LAW TEST below — never silently skipped;
+      - always: the chain end states are 0/1: the visible-bias block of (got - pos)*|neg| is an integer vector
+        in [0, |neg|];
   grad(rbm_ph) == positive phase only, each .grad has its parameter's shape and is the right block,
   parameters after step == before - lr*grad (up to one rounding: torch may fuse the multiply-add),
   parameters are touched by nothing else (bit-identical chain), optimizer steps == batches,
-  scheduler steps == epochs, and in the sequence of optimizer/scheduler steps the scheduler step of an epoch
-  follows that epoch's last optimizer step and precedes the next epoch's first; lr of epoch e follows StepLR.
+  scheduler steps == epochs, in the sequence of optimizer/scheduler steps the scheduler step of an epoch follows that
+  epoch's last optimizer step and precedes the next epoch's first; lr of epoch e follows StepLR of THIS fit call.
+STATISTICAL LAW TEST (labelled a test; fixed cases that always run first + every case whose draws were unobservable):
+  a direct compute_batch_gradients(k, data, M identical negative rows): every entry of the negative term
+  (pos - got) is a mean of M independent [-1,0]-valued variables whose expectation under the exact k-step kernel K^k
+  (enumerated in numpy) is known: Hoeffding bound at delta = 1e-9 per entry.
+Regimes: tiny shapes (brute-force everything), larger shapes nv, nh ~ 20..40 (formula conditionals), one 160x160
+  ones-vs-zeros case and near-vanishing rotated amplitudes, so that the gradient norm spans ~1e-3 .. 1e3.
 Correspondence: the extracted Coq model (CDStep.cbg_binary/cbg_purification, vector_to_grads, assign_grads,
   sgd_step, batch_update, run_epochs/steplr) on the captured inputs vs what the implementation did.
 """
-import math, time, copy
+import math, time, copy, itertools
 import numpy as np
 import gen
 
-RULE = ("one case = one real fit() run: state type in {positive, complex, density matrix}, nv 1..3(4), nh 1..3, na 1..2, "
-        "N 1..9 samples (numpy array or torch tensor), pos_batch_size / neg_batch_size equal or different, dividing N or not, "
-        "k = 0..3, lr from {1e-3, 0.05, 0.3, 1.0, log-uniform}, 1..4 epochs run from starting_epoch 1..3, scheduler None or "
-        "StepLR(step_size 1..3, gamma), optimizer_args absent or neutral (momentum=0, weight_decay=0: still plain SGD); a covering grid "
-        "(state type x k x batch-size pattern) followed by random draws; parameters from harness/gen.py with non-zero biases, "
-        "bases per row from XYZ with at least one all-Z row; non-trivial := pos_batch_size != neg_batch_size and k >= 1 and "
-        ">= 2 batches per epoch and (scheduler present with >= 2 epochs)")
+RULE = ("one case = one real fit() run (20 %: two consecutive fit() calls on the same state with different lr / scheduler / k / "
+        "neg_batch_size): state type in {positive, complex, density matrix}, nv 1..3(4), nh 1..3, na 1..2 (10 % of the random "
+        "draws: nv, nh in 20..40), N 1..9 samples (numpy array or torch tensor), pos_batch_size / neg_batch_size equal or "
+        "different, dividing N or not, k = 0..3, lr from {1e-3, 0.05, 0.3, 1.0, log-uniform}, 1..4 epochs run from starting_epoch "
+        "1..3, scheduler None or StepLR(step_size 1..3, gamma), optimizer_args absent or neutral (momentum=0, weight_decay=0: still "
+        "plain SGD); fixed cases that always run first: statistical law tests (positive / complex / density, k = 1, 2, 40000 "
+        "identical negative rows), two-fit histories, near-vanishing rotated amplitude (|grad| ~ 1e3), 160x160 ones-vs-zeros "
+        "(|grad| > 100); then a covering grid (state type x k x batch-size pattern), then random draws; parameters from "
+        "harness/gen.py with non-zero biases, bases per row from XYZ with at least one all-Z row; non-trivial := "
+        "pos_batch_size != neg_batch_size and k >= 1 and >= 2 batches per epoch and (scheduler present with >= 2 epochs)")
 ASSUMPTIONS = [
     "torch.optim.SGD.step with default arguments computes p + (-lr)*grad (possibly fused): compared up to one rounding",
     "positive phase of Complex/DensityMatrix states is taken from state.positive_phase_gradients at the batch's parameters (its correctness is C03); for PositiveWaveFunction it is also recomputed in numpy",
-    "for k > 0 the Gibbs end state vk is observed at the wrapped rbm_am.gibbs_steps (its law is C05); an implementation that samples without going through it is not judged on the negative phase for k > 0 (counted vk_unobserved)",
+    "torch.bernoulli(p) returns independent 0/1 draws with P(1) = p per entry (trusted, as in C05); draws made by other means are judged by the Hoeffding-bounded statistical law test (delta = 1e-9 per entry)",
     "stop requests during fit are not generated here (C12)",
 ]
+HOEFFDING_DELTA = 1e-9
 
 LAYOUT_B = ["weights", "visible_bias", "hidden_bias"]
 LAYOUT_P = ["weights_W", "weights_U", "visible_bias", "hidden_bias", "aux_bias"]
@@ -97,13 +115,150 @@ def steplr_ref(lr0, gamma, ss, e):
     return lr0 * gamma ** (e // ss)
 
 
+# ------------------------------------------------------------------------------------------ exact conditionals / kernel (numpy)
+class CondNet:
+    """The amplitude RBM at given parameters: exact conditionals by formula (any size).  Interface of C05's Net as far as
+    interpret_run needs it (nv, nh, na, purif, exp_ph, exp_pa, exp_pv)."""
+
+    def __init__(self, par):
+        self.par = [np.asarray(p, dtype=float) for p in par]
+        self.purif = (len(par) == 5)
+        if self.purif:
+            self.W, self.U, self.b, self.c, self.d = self.par
+            self.na = self.U.shape[0]
+        else:
+            self.W, self.b, self.c = self.par
+            self.U, self.d, self.na = None, None, 0
+        self.nh, self.nv = self.W.shape
+
+    def exp_ph(self, v):
+        return _sig(np.atleast_2d(v) @ self.W.T + self.c)
+
+    def exp_pa(self, v):
+        return _sig(np.atleast_2d(v) @ self.U.T + self.d)
+
+    def exp_pv(self, h, a=None):
+        x = np.atleast_2d(h) @ self.W + self.b
+        if self.purif:
+            x = x + np.atleast_2d(a) @ self.U
+        return _sig(x)
+
+
+def bits(n):
+    return np.array(list(itertools.product([0.0, 1.0], repeat=n)), dtype=float).reshape(2 ** n, n)
+
+
+def bern_mat(P, B):
+    out = np.ones((P.shape[0], B.shape[0]))
+    for u in range(P.shape[1]):
+        out = out * np.where(B[None, :, u] > 0.5, P[:, None, u], 1.0 - P[:, None, u])
+    return out
+
+
+def exact_kernel(net):
+    """K[s, s'] = sum_{h,a} P(h|s) P(a|s) prod_j Bern(P(v_j | h, a); s'_j), by enumeration (small sizes only)."""
+    V, H = bits(net.nv), bits(net.nh)
+    B1 = bern_mat(net.exp_ph(V), H)                                   # (s, h)
+    if net.purif:
+        A = bits(net.na)
+        B1a = bern_mat(net.exp_pa(V), A)                              # (s, a)
+        HH = np.repeat(H, len(A), axis=0); AA = np.tile(A, (len(H), 1))
+        B12 = (B1[:, :, None] * B1a[:, None, :]).reshape(len(V), -1)
+        return B12 @ bern_mat(net.exp_pv(HH, AA), V), V
+    return B1 @ bern_mat(net.exp_pv(H), V), V
+
+
+def row_index(v):
+    v = np.asarray(v, dtype=float).ravel()
+    return int(sum(int(b) << (len(v) - 1 - i) for i, b in enumerate(v)))
+
+
+class BernoulliSpy:
+    """Records the probability tensor given to, and the draw returned by, every torch.bernoulli call (as C05 does)."""
+
+    def __init__(self):
+        self.calls = []
+
+    def __enter__(self):
+        import torch
+        self.torch = torch
+        self.orig = torch.bernoulli
+        spy = self
+
+        def wrapped(inp, *a, **k):
+            p = inp.detach().clone()
+            pa = a[0] if a and isinstance(a[0], (int, float)) else k.get("p")
+            if isinstance(pa, (int, float)):
+                p = spy.torch.full_like(p, float(pa), dtype=spy.torch.double)
+            out = spy.orig(inp, *a, **k)
+            spy.calls.append({"p": p.numpy().astype(float), "out": out.detach().clone().numpy().astype(float)})
+            return out
+        torch.bernoulli = wrapped
+        return self
+
+    def __exit__(self, *exc):
+        self.torch.bernoulli = self.orig
+        return False
+
+
+def read_chain(net, calls, v_start, k):
+    """C05's content-based interpretation of the recorded draws as block-Gibbs steps from v_start.
+    Returns (states, reason): states[j] = visible state after j exact steps (states[0] = v_start)."""
+    try:
+        from checks import c05
+        steps, reason = c05.interpret_run(net, calls, np.asarray(v_start, dtype=float), k)
+    except Exception as e:                                   # C05's module unavailable / changed: nothing is observable
+        return [np.asarray(v_start, dtype=float)], "interpretation unavailable (%s)" % type(e).__name__
+    return [np.asarray(v_start, dtype=float)] + [st["v"] for st in steps], reason
+
+
 # ------------------------------------------------------------------------------------------ case generation
-def rand_spec(ctx, kind=None, k=None, pattern=None):
+def _params(ctx, kind, nv, nh, na, clip=6.0):
+    if kind == "positive":
+        am = gen.brbm_params(ctx, nv, nh); ph = None
+    elif kind == "complex":
+        am = gen.brbm_params(ctx, nv, nh); ph = gen.brbm_params(ctx, nv, nh)
+    else:
+        am = gen.prbm_params(ctx, nv, nh, na); ph = gen.prbm_params(ctx, nv, nh, na, phase=True)
+    am = [np.clip(a, -clip, clip) for a in am]
+    ph = [np.clip(a, -clip, clip) for a in ph] if ph is not None else None
+    return am, ph
+
+
+def _bases(rng, kind, N, nv, max_rot=2):
+    if kind == "positive":
+        return None
+    rows = []
+    for i in range(N):
+        if rng.random() < 0.4:
+            rows.append(["Z"] * nv)
+        else:
+            r = ["Z"] * nv
+            for j in rng.choice(nv, size=min(nv, int(rng.integers(1, max_rot + 1))), replace=False):
+                r[int(j)] = str(rng.choice(["X", "Y"]))
+            rows.append(r)
+    rows[int(rng.integers(0, N))] = ["Z"] * nv          # the negative phase needs a reference-basis row
+    return ["".join(r) for r in rows]
+
+
+def _sched(rng):
+    if rng.random() < 0.7:
+        return {"step_size": int(rng.integers(1, 4)), "gamma": float(rng.choice([0.5, 0.1, 0.9, 1.5]))}
+    return None
+
+
+def _lr(rng):
+    return float(rng.choice([1e-3, 0.05, 0.3, 1.0, float(np.exp(rng.uniform(np.log(1e-4), np.log(3.0))))]))
+
+
+def rand_spec(ctx, kind=None, k=None, pattern=None, large=None, second=None):
     rng = ctx.rng
     kind = kind or str(rng.choice(["positive", "complex", "dm"]))
-    nv = int(rng.integers(1, 5 if ctx.thorough else 4))
-    nh = int(rng.integers(1, 4))
-    na = int(rng.integers(1, 3))
+    large = bool(rng.random() < 0.10) if large is None else large
+    if large:
+        nv = int(rng.integers(20, 41)); nh = int(rng.integers(20, 41)); na = int(rng.integers(1, 4))
+    else:
+        nv = int(rng.integers(1, 5 if ctx.thorough else 4)); nh = int(rng.integers(1, 4)); na = int(rng.integers(1, 3))
     N = int(rng.integers(1, 10)) if rng.random() < 0.25 else int(rng.integers(3, 10))
     pattern = pattern or str(rng.choice(["equal_div", "equal_nodiv", "neg_smaller", "neg_larger", "neg_default", "single_batch"]))
     divs = [d for d in range(1, N + 1) if N % d == 0]
@@ -121,44 +276,81 @@ def rand_spec(ctx, kind=None, k=None, pattern=None):
     else:
         pb = N + int(rng.integers(0, 3)); nb = int(rng.integers(1, 6))
     k = int(rng.integers(0, 4)) if k is None else k
-    lr = float(rng.choice([1e-3, 0.05, 0.3, 1.0, float(np.exp(rng.uniform(np.log(1e-4), np.log(3.0))))]))
-    epochs = int(rng.integers(1, 5))
+    lr = _lr(rng)
+    epochs = int(rng.integers(1, 5)) if not large else int(rng.integers(1, 3))
     starting_epoch = int(rng.choice([1, 1, 1, 2, 3]))
     optimizer_args = None if rng.random() < 0.75 else {"momentum": 0.0, "weight_decay": 0.0}
     data_as_tensor = bool(rng.random() < 0.25)
-    if rng.random() < 0.7:
-        sched = {"step_size": int(rng.integers(1, 4)), "gamma": float(rng.choice([0.5, 0.1, 0.9, 1.5]))}
-    else:
-        sched = None
+    sched = _sched(rng)
     data = rng.integers(0, 2, size=(N, nv)).astype(float)
-    bases = None
-    if kind != "positive":
-        rows = []
-        for i in range(N):
-            if rng.random() < 0.4:
-                rows.append(["Z"] * nv)
-            else:
-                r = ["Z"] * nv
-                for j in rng.choice(nv, size=min(nv, int(rng.integers(1, 3))), replace=False):
-                    r[int(j)] = str(rng.choice(["X", "Y"]))
-                rows.append(r)
-        rows[int(rng.integers(0, N))] = ["Z"] * nv          # the negative phase needs a reference-basis row
-        bases = ["".join(r) for r in rows]
-    if kind == "positive":
-        am = gen.brbm_params(ctx, nv, nh); ph = None
-    elif kind == "complex":
-        am = gen.brbm_params(ctx, nv, nh); ph = gen.brbm_params(ctx, nv, nh)
-    else:
-        am = gen.prbm_params(ctx, nv, nh, na); ph = gen.prbm_params(ctx, nv, nh, na, phase=True)
-    # keep parameters moderate so that psi of rotated samples stays well inside the double range
-    am = [np.clip(a, -6, 6) for a in am]
-    ph = [np.clip(a, -6, 6) for a in ph] if ph is not None else None
-    return {"state": kind, "nv": nv, "nh": nh, "na": na if kind == "dm" else None, "N": N,
+    bases = _bases(rng, kind, N, nv, max_rot=1 if large else 2)
+    am, ph = _params(ctx, kind, nv, nh, na, clip=6.0)
+    if large:
+        am[0] = am[0] * float(rng.choice([0.2, 1.0, 3.0])) / math.sqrt(nv)       # pre-activations of order 0.2 .. 3
+    second = bool(rng.random() < 0.20) if second is None else second
+    spec = {"state": kind, "nv": nv, "nh": nh, "na": na if kind == "dm" else None, "N": N,
             "pos_batch_size": pb, "neg_batch_size": nb, "pattern": pattern, "k": k, "lr": lr, "epochs": epochs,
             "starting_epoch": starting_epoch, "optimizer_args": optimizer_args, "data_as_tensor": data_as_tensor,
             "scheduler": sched, "data": data.tolist(), "bases": bases,
             "am": gen.plist(*am), "ph": gen.plist(*ph) if ph is not None else None,
-            "torch_seed": ctx.torch_seed()}
+            "torch_seed": ctx.torch_seed(), "second": None}
+    if second:
+        lr2 = _lr(rng)
+        while math.isclose(lr2, lr, rel_tol=0.05):
+            lr2 = lr * float(rng.choice([0.1, 3.0]))
+        spec["second"] = {"lr": lr2, "scheduler": _sched(rng), "epochs": int(rng.integers(1, 3)), "starting_epoch": 1,
+                          "k": int(rng.integers(0, 4)), "neg_batch_size": int(rng.integers(1, 6)),
+                          "pos_batch_size": pb, "optimizer_args": optimizer_args, "data_as_tensor": data_as_tensor}
+    return spec
+
+
+def fixed_specs(ctx):
+    """Cases that always run first (regimes the random stream reaches only with small probability)."""
+    out = []
+    # -- two consecutive fit() calls on the same state: the second call must use ITS lr / scheduler / k
+    s1 = rand_spec(ctx, "positive", 1, "neg_smaller", large=False, second=False)
+    s1.update(lr=0.3, scheduler={"step_size": 1, "gamma": 0.5}, epochs=2, starting_epoch=1, optimizer_args=None)
+    s1["second"] = {"lr": 0.01, "scheduler": None, "epochs": 2, "starting_epoch": 1, "k": 2, "neg_batch_size": 3,
+                    "pos_batch_size": s1["pos_batch_size"], "optimizer_args": None, "data_as_tensor": False}
+    s2 = rand_spec(ctx, "complex", 2, "equal_div", large=False, second=False)
+    s2.update(lr=0.05, scheduler=None, epochs=1, starting_epoch=1, optimizer_args={"momentum": 0.0, "weight_decay": 0.0})
+    s2["second"] = {"lr": 0.5, "scheduler": {"step_size": 1, "gamma": 0.1}, "epochs": 2, "starting_epoch": 1, "k": 0,
+                    "neg_batch_size": 2, "pos_batch_size": s2["pos_batch_size"],
+                    "optimizer_args": {"momentum": 0.0, "weight_decay": 0.0}, "data_as_tensor": True}
+    s3 = rand_spec(ctx, "dm", 1, "neg_larger", large=False, second=False)
+    s3.update(lr=1.0, scheduler={"step_size": 2, "gamma": 0.1}, epochs=3, starting_epoch=1)
+    s3["second"] = {"lr": 1e-3, "scheduler": {"step_size": 1, "gamma": 1.5}, "epochs": 2, "starting_epoch": 1, "k": 3,
+                    "neg_batch_size": None, "pos_batch_size": s3["pos_batch_size"], "optimizer_args": None, "data_as_tensor": False}
+    out += [("two_fits", s) for s in (s1, s2, s3)]
+    # -- near-vanishing rotated amplitude: complex, 1 site, basis X, outcome 1: A = (psi0 - psi1)/sqrt2 ~ eps/2
+    for eps, lr in ((2e-3, 1e-4), (0.2, 1e-2)):
+        sp = rand_spec(ctx, "complex", 1, "equal_div", large=False, second=False)
+        sp.update(nv=1, nh=1, N=3, pos_batch_size=1, neg_batch_size=2, pattern="neg_larger", lr=lr, epochs=2, starting_epoch=1,
+                  scheduler={"step_size": 1, "gamma": 0.5}, data=[[1.0], [0.0], [1.0]], bases=["X", "Z", "Z"],
+                  am=[[[0.0]], [0.0], [0.3]], ph=[[[0.0]], [eps], [0.2]], data_as_tensor=False, optimizer_args=None)
+        out.append(("near_singular_rotation", sp))
+    # -- |grad| > 100 with entries bounded by 1: 160 x 160, all-ones against all-zeros rows, weights 3/nv-free
+    n = 160
+    sp = rand_spec(ctx, "positive", 0, "neg_larger", large=False, second=False)
+    sp.update(nv=n, nh=n, N=2, pos_batch_size=1, neg_batch_size=3, pattern="neg_larger", k=0, lr=1e-3, epochs=4, starting_epoch=1,
+              scheduler=None, data=[[1.0] * n, [0.0] * n], bases=None, data_as_tensor=False, optimizer_args=None,
+              am=[np.full((n, n), 3.0 / n).tolist(), [0.1] * n, [-0.2] * n], ph=None)
+    out.append(("large_shape_ones_vs_zeros", sp))
+    # -- larger shapes, every state type, k > 0 (conditionals by formula)
+    for kind, k in (("positive", 2), ("complex", 1), ("dm", 1)):
+        out.append(("large_shape", rand_spec(ctx, kind, k, "neg_smaller", large=True, second=False)))
+    return out
+
+
+def stat_fixed(ctx):
+    """Parameters with a strongly state-dependent chain (the red team's demo point and a purification analogue)."""
+    return [
+        {"state": "positive", "nv": 1, "nh": 1, "na": None, "am": [[[8.0]], [-6.0], [0.0]], "ph": None, "start": [0.0]},
+        {"state": "complex", "nv": 2, "nh": 1, "na": None, "am": [[[6.0, -5.0]], [-4.0, 2.0], [0.5]],
+         "ph": [[[0.3, -0.2]], [0.1, 0.2], [0.4]], "start": [0.0, 1.0]},
+        {"state": "dm", "nv": 1, "nh": 1, "na": 1, "am": [[[8.0]], [[-5.0]], [-3.0], [0.0], [1.0]],
+         "ph": [[[0.2]], [[0.1]], [0.3], [-0.1], [0.0]], "start": [0.0]},
+    ]
 
 
 def build_state(spec):
@@ -177,111 +369,127 @@ def build_state(spec):
     return s
 
 
-# ------------------------------------------------------------------------------------------ one fit run
+# ------------------------------------------------------------------------------------------ recording one state
 SPEC_KEYS = ["state", "nv", "nh", "na", "N", "pos_batch_size", "neg_batch_size", "pattern", "k", "lr", "epochs", "scheduler",
              "data", "bases", "am", "ph", "torch_seed"]
-SPEC_DEFAULTS = {"starting_epoch": 1, "optimizer_args": None, "data_as_tensor": False}
+SPEC_DEFAULTS = {"starting_epoch": 1, "optimizer_args": None, "data_as_tensor": False, "second": None}
+RUN_KEYS = ["lr", "scheduler", "epochs", "starting_epoch", "k", "neg_batch_size", "pos_batch_size", "optimizer_args", "data_as_tensor"]
 
 
-def record_fit(ctx, spec, case):
-    """Runs the real fit with recorders; returns (ok, state, nets, events, init_params)."""
-    import torch
-    from qucumber.callbacks import CallbackBase
-    s = build_state(spec)
-    nets = [getattr(s, n) for n in s.networks]
-    events = []
+class Recorder:
+    """One real state with observation points installed once; fit() may be called on it several times."""
 
-    class RecSGD(torch.optim.SGD):
-        def step(self, closure=None):
-            ps = [p for g in self.param_groups for p in g["params"]]
-            rec = {"lrs": [float(g["lr"]) for g in self.param_groups for _ in g["params"]], "params": ps,
-                   "before": [p.data.detach().clone() for p in ps],
-                   "grad": [None if p.grad is None else p.grad.detach().clone() for p in ps]}
-            out = super().step(closure)
-            rec["after"] = [p.data.detach().clone() for p in ps]
-            events.append(("opt", rec))
+    def __init__(self, spec):
+        import torch
+        from qucumber.callbacks import CallbackBase
+        self.spec = spec
+        s = self.s = build_state(spec)
+        nets = self.nets = [getattr(s, n) for n in s.networks]
+        self.events = []
+        self.spy = BernoulliSpy()
+        R = self
+
+        class RecSGD(torch.optim.SGD):
+            def step(self, closure=None):
+                ps = [p for g in self.param_groups for p in g["params"]]
+                rec = {"lrs": [float(g["lr"]) for g in self.param_groups for _ in g["params"]], "params": ps,
+                       "before": [p.data.detach().clone() for p in ps],
+                       "grad": [None if p.grad is None else p.grad.detach().clone() for p in ps]}
+                out = super().step(closure)
+                rec["after"] = [p.data.detach().clone() for p in ps]
+                R.events.append(("opt", rec))
+                return out
+
+        class RecStepLR(torch.optim.lr_scheduler.StepLR):
+            def __init__(self, *a, **k):
+                self._rec_ready = False            # the constructor performs torch's own initial step()
+                super().__init__(*a, **k)
+                self._rec_ready = True
+
+            def step(self, *a, **k):
+                if self._rec_ready:
+                    R.events.append(("sched", {}))
+                return super().step(*a, **k)
+
+        class RecCB(CallbackBase):
+            def on_epoch_start(self, nn_state, epoch):
+                R.events.append(("epoch_start", {"ep": epoch}))
+
+            def on_epoch_end(self, nn_state, epoch):
+                R.events.append(("epoch_end", {"ep": epoch}))
+
+            def on_batch_start(self, nn_state, epoch, batch):
+                R.events.append(("batch_start", {"ep": epoch, "b": batch}))
+
+            def on_batch_end(self, nn_state, epoch, batch):
+                R.events.append(("batch_end", {"ep": epoch, "b": batch}))
+
+        self.RecSGD, self.RecStepLR, self.RecCB = RecSGD, RecStepLR, RecCB
+        orig_cbg = s.compute_batch_gradients
+        orig_gibbs = s.rbm_am.gibbs_steps
+        open_cbg = []
+
+        def cbg(*args, **kw):
+            # observation only: accept positional and keyword forms alike
+            names = ["k", "samples_batch", "neg_batch", "bases_batch"]
+            got = dict(zip(names, args)); got.update({n: v for n, v in kw.items() if n in names})
+            samples_batch, neg_batch, bases_batch = got.get("samples_batch"), got.get("neg_batch"), got.get("bases_batch")
+            rec = {"samples": samples_batch.detach().clone(), "neg": neg_batch.detach().clone(),
+                   "bases": None if bases_batch is None else np.array(bases_batch).copy(),
+                   "params": [snap(n) for n in nets], "gibbs": []}
+            if spec["state"] == "positive":
+                pos = s.positive_phase_gradients(samples_batch)
+            else:
+                pos = s.positive_phase_gradients(samples_batch, bases_batch=bases_batch)
+            rec["pos"] = [p.detach().clone() for p in pos]
+            R.events.append(("cbg", rec))
+            open_cbg.append(rec)
+            i0 = len(R.spy.calls)
+            try:
+                out = orig_cbg(*args, **kw)
+            finally:
+                open_cbg.pop()
+                rec["bern"] = R.spy.calls[i0:]
+            rec["ret"] = [g.detach().clone() for g in out]
             return out
 
-    class RecStepLR(torch.optim.lr_scheduler.StepLR):
-        def __init__(self, *a, **k):
-            self._rec_ready = False            # the constructor performs torch's own initial step()
-            super().__init__(*a, **k)
-            self._rec_ready = True
+        def gibbs(*args, **kw):
+            names = ["k", "initial_state", "overwrite"]
+            got = dict(zip(names, args)); got.update({n: v for n, v in kw.items() if n in names})
+            init = got["initial_state"].detach().clone()
+            out = orig_gibbs(*args, **kw)
+            if open_cbg:
+                open_cbg[-1]["gibbs"].append({"k": int(got["k"]), "init": init, "vk": out.detach().clone()})
+            return out
 
-        def step(self, *a, **k):
-            if self._rec_ready:
-                events.append(("sched", {}))
-            return super().step(*a, **k)
+        s.compute_batch_gradients = cbg
+        s.rbm_am.gibbs_steps = gibbs
 
-    class RecCB(CallbackBase):
-        def on_epoch_start(self, nn_state, epoch):
-            events.append(("epoch_start", {"ep": epoch}))
-
-        def on_epoch_end(self, nn_state, epoch):
-            events.append(("epoch_end", {"ep": epoch}))
-
-        def on_batch_start(self, nn_state, epoch, batch):
-            events.append(("batch_start", {"ep": epoch, "b": batch}))
-
-        def on_batch_end(self, nn_state, epoch, batch):
-            events.append(("batch_end", {"ep": epoch, "b": batch}))
-
-    orig_cbg = s.compute_batch_gradients
-    orig_gibbs = s.rbm_am.gibbs_steps
-    open_cbg = []
-
-    def cbg(*args, **kw):
-        # observation only: accept positional and keyword forms alike
-        names = ["k", "samples_batch", "neg_batch", "bases_batch"]
-        got = dict(zip(names, args)); got.update({n: v for n, v in kw.items() if n in names})
-        samples_batch, neg_batch, bases_batch = got.get("samples_batch"), got.get("neg_batch"), got.get("bases_batch")
-        rec = {"samples": samples_batch.detach().clone(), "neg": neg_batch.detach().clone(),
-               "bases": None if bases_batch is None else np.array(bases_batch).copy(),
-               "params": [snap(n) for n in nets], "gibbs": []}
-        if spec["state"] == "positive":
-            pos = s.positive_phase_gradients(samples_batch)
-        else:
-            pos = s.positive_phase_gradients(samples_batch, bases_batch=bases_batch)
-        rec["pos"] = [p.detach().clone() for p in pos]
-        events.append(("cbg", rec))
-        open_cbg.append(rec)
-        try:
-            out = orig_cbg(*args, **kw)
-        finally:
-            open_cbg.pop()
-        rec["ret"] = [g.detach().clone() for g in out]
-        return out
-
-    def gibbs(*args, **kw):
-        names = ["k", "initial_state", "overwrite"]
-        got = dict(zip(names, args)); got.update({n: v for n, v in kw.items() if n in names})
-        init = got["initial_state"].detach().clone()
-        out = orig_gibbs(*args, **kw)
-        if open_cbg:
-            open_cbg[-1]["gibbs"].append({"k": int(got["k"]), "init": init, "vk": out.detach().clone()})
-        return out
-
-    s.compute_batch_gradients = cbg
-    s.rbm_am.gibbs_steps = gibbs
-    torch.manual_seed(spec["torch_seed"])
-    se = spec.get("starting_epoch", 1)
-    kw = dict(epochs=se + spec["epochs"] - 1, pos_batch_size=spec["pos_batch_size"], neg_batch_size=spec["neg_batch_size"],
-              k=spec["k"], lr=spec["lr"], optimizer=RecSGD, callbacks=[RecCB()])
-    if se != 1:
-        kw["starting_epoch"] = se
-    if spec.get("optimizer_args") is not None:
-        kw["optimizer_args"] = dict(spec["optimizer_args"])
-    if spec["scheduler"] is not None:
-        kw["scheduler"] = RecStepLR
-        kw["scheduler_args"] = dict(spec["scheduler"])
-    if spec["state"] != "positive":
-        kw["input_bases"] = np.array([list(b) for b in spec["bases"]])
-    data = np.array(spec["data"], dtype=float)
-    if spec.get("data_as_tensor"):
-        data = torch.tensor(data, dtype=torch.double)
-    init_params = [snap(n) for n in nets]
-    ok, _ = ctx.call("fit", case, lambda: s.fit(data, **kw))
-    return ok, s, nets, events, init_params
+    def fit(self, ctx, run, case):
+        """One real fit() call with the run's arguments.  Returns (ok, events, init_params)."""
+        import torch
+        spec, s = self.spec, self.s
+        self.events = []
+        self.spy.calls = []
+        se = run["starting_epoch"]
+        kw = dict(epochs=se + run["epochs"] - 1, pos_batch_size=run["pos_batch_size"], neg_batch_size=run["neg_batch_size"],
+                  k=run["k"], lr=run["lr"], optimizer=self.RecSGD, callbacks=[self.RecCB()])
+        if se != 1:
+            kw["starting_epoch"] = se
+        if run.get("optimizer_args") is not None:
+            kw["optimizer_args"] = dict(run["optimizer_args"])
+        if run["scheduler"] is not None:
+            kw["scheduler"] = self.RecStepLR
+            kw["scheduler_args"] = dict(run["scheduler"])
+        if spec["state"] != "positive":
+            kw["input_bases"] = np.array([list(b) for b in spec["bases"]])
+        data = np.array(spec["data"], dtype=float)
+        if run.get("data_as_tensor"):
+            data = torch.tensor(data, dtype=torch.double)
+        init_params = [snap(n) for n in self.nets]
+        with self.spy:
+            ok, _ = ctx.call("fit", case, lambda: s.fit(data, **kw))
+        return ok, self.events, init_params
 
 
 def tclose(a, b, rtol, atol):
@@ -291,6 +499,11 @@ def tclose(a, b, rtol, atol):
     return bool(np.all(np.abs(a - b) <= rtol * np.maximum(np.abs(a), np.abs(b)) + atol))
 
 
+def is01(x):
+    x = np.asarray(x, dtype=float)
+    return bool(np.all((x == 0.0) | (x == 1.0)))
+
+
 def same_values(a, b):
     import torch
     return tuple(a.shape) == tuple(b.shape) and bool(torch.equal(a.to(torch.double), b.to(torch.double)))
@@ -298,9 +511,7 @@ def same_values(a, b):
 
 def chain_ends(calls, neg, k):
     """End states of chains of OBSERVED gibbs_steps calls (in call order) that start from the negative batch
-    and total k steps.  k == 0: the negative batch itself, whatever was called."""
-    if k == 0:
-        return [neg]
+    and total k steps (used only to learn vk when the Bernoulli draws themselves are not observable)."""
     outs = []
 
     def go(i0, state, steps):
@@ -316,12 +527,26 @@ def chain_ends(calls, neg, k):
     return outs
 
 
-def run_case(ctx, spec, model_every=1):
-    import torch
-    m = ctx.get_model()
+def vb_slice(par_am):
+    """position of the visible-bias block in the flat amplitude gradient"""
+    nW = sum(int(np.prod(p.shape)) for p in par_am[:(2 if len(par_am) == 5 else 1)])
+    nv = int(par_am[2 if len(par_am) == 5 else 1].shape[0])
+    return nW, nW + nv
+
+
+def runs_of(spec):
+    first = {k: spec[k] for k in RUN_KEYS}
+    runs = [first]
+    if spec.get("second"):
+        runs.append(dict(first, **{k: v for k, v in spec["second"].items() if k in RUN_KEYS}))
+    return runs
+
+
+def run_case(ctx, spec, model_every=1, label=None):
     spec = dict(SPEC_DEFAULTS, **spec)
     case = dict(spec)
     kind = spec["state"]
+    runs = runs_of(spec)
     pb, nb_arg = spec["pos_batch_size"], spec["neg_batch_size"]
     nb = nb_arg if nb_arg else pb
     N = spec["N"]
@@ -330,22 +555,51 @@ def run_case(ctx, spec, model_every=1):
     nontriv = (nb != pb and spec["k"] >= 1 and nbatches >= 2 and sched is not None and spec["epochs"] >= 2)
     ctx.case({"state": kind, "nv": spec["nv"], "nh": spec["nh"], "na": spec["na"], "N": N, "pos": pb, "neg": nb_arg,
               "k": spec["k"], "lr": spec["lr"], "epochs": spec["epochs"], "start": spec["starting_epoch"],
-              "scheduler": sched, "seed": spec["torch_seed"]}, nontrivial=nontriv)
+              "scheduler": sched, "fits": len(runs), "seed": spec["torch_seed"]}, nontrivial=nontriv)
     for key in ("state:" + kind, "k:%d" % spec["k"], "pattern:" + spec["pattern"], "epochs:%d" % spec["epochs"],
                 "starting_epoch:%d" % spec["starting_epoch"], "N:%s" % ("1" if N == 1 else "2" if N == 2 else ">=3"),
+                "shape:%s" % ("tiny" if max(spec["nv"], spec["nh"]) <= 4 else "20..40" if max(spec["nv"], spec["nh"]) <= 40 else ">100"),
+                "fit_calls_on_the_state:%d" % len(runs), "regime:" + (label or "generated"),
                 "optimizer_args:" + ("none" if spec["optimizer_args"] is None else "neutral"),
                 "data:" + ("tensor" if spec["data_as_tensor"] else "ndarray"),
                 "scheduler:" + ("none" if sched is None else "steplr%d" % sched["step_size"]),
                 "batches_per_epoch:%d" % nbatches, "neg_vs_pos:" + ("eq" if nb == pb else "lt" if nb < pb else "gt")):
         ctx.count(key)
+    import torch
+    torch.manual_seed(spec["torch_seed"])
+    R = Recorder(spec)
+    flags = {"need_stat": None}
+    for ri, run in enumerate(runs):
+        rcase = dict(case, fit_call=ri + 1, **{("run_" + k): run[k] for k in ("lr", "scheduler", "epochs", "k", "neg_batch_size")})
+        ok, events, init_params = R.fit(ctx, run, rcase)
+        if not ok:
+            return
+        if not analyse_run(ctx, spec, run, rcase, R, events, init_params, model_every, flags):
+            break
+    if flags["need_stat"] is not None:
+        # the chain of some batch could not be observed draw by draw: decide its LAW end to end
+        ctx.count("vk_unobserved_decided_by_statistical_test")
+        st = {"state": kind, "nv": spec["nv"], "nh": spec["nh"], "na": spec["na"], "am": spec["am"], "ph": spec["ph"],
+              "start": flags["need_stat"]["start"]}
+        if max(spec["nv"], spec["nh"] + (spec["na"] or 0)) <= 8:
+            stat_case(ctx, st, sorted({flags["need_stat"]["k"], 1, 2}), M=40000,
+                      why="draws of a fit batch were not observable: " + str(flags["need_stat"].get("why"))[:160], fit_case=case)
+        else:
+            ctx.count("vk_unobserved_too_large_for_kernel_enumeration")
 
-    ok, s, nets, events, init_params = record_fit(ctx, spec, case)
-    if not ok:
-        return
+
+def analyse_run(ctx, spec, run, case, R, events, init_params, model_every, flags):
+    """All per-step relations for one fit() call.  Returns False when the recorded history could not be aligned."""
+    import torch
+    m = ctx.get_model()
+    s, nets = R.s, R.nets
+    kind = spec["state"]
+    sched = run["scheduler"]
+    k_run = run["k"]
     kinds = [e[0] for e in events]
     if any(not all(bool(torch.isfinite(p).all()) for p in rec["pos"]) for ke, rec in events if ke == "cbg"):
         ctx.count("skipped_nonfinite_positive_phase")      # a rotated amplitude vanished: the NLL itself is undefined there
-        return
+        return False
 
     # ---------------------------------------------------------------- protocol: steps per batch / per epoch
     # Epochs and batches are what the user's callback saw; optimizer / scheduler steps are what the objects handed to
@@ -360,7 +614,7 @@ def run_case(ctx, spec, model_every=1):
             nb_per_epoch[-1] += 1
     n_epochs = len(nb_per_epoch)
     n_batches = sum(nb_per_epoch)
-    n_opt = kinds.count("opt"); n_sched = kinds.count("sched"); n_cbg = kinds.count("cbg")
+    n_opt = kinds.count("opt"); n_sched = kinds.count("sched")
     steps = [ke for ke in kinds if ke in ("opt", "sched")]
     expect = []
     for e in range(n_epochs):
@@ -372,11 +626,11 @@ def run_case(ctx, spec, model_every=1):
         ctx.require("the scheduler step of an epoch follows that epoch's last optimizer step and precedes the next epoch's first",
                     steps == expect, case, {"got": steps[:60], "expected": expect[:60]})
     if steps != expect:
-        return
+        return False
     if [ke for ke in kinds if ke in ("cbg", "opt")] != ["cbg", "opt"] * n_opt:
         # the per-batch method named in observe_at was not seen exactly once before each step: cannot learn the batch
         ctx.count("compute_batch_gradients_not_observed_per_step")
-        return
+        return False
     epoch_of_step = [e for e in range(n_epochs) for _ in range(nb_per_epoch[e])]
 
     # ---------------------------------------------------------------- per optimizer step
@@ -390,6 +644,7 @@ def run_case(ctx, spec, model_every=1):
     trace = [0 if ke == "opt" else 1 for ke in steps]          # 0 = optimizer step, 1 = scheduler step
     lrs = []
     grads_by_epoch = [[] for _ in range(n_epochs)]
+    big = max(spec["nv"], spec["nh"]) > 40
     bi = 0
     for kind_e, rec in events:
         if kind_e == "cbg":
@@ -401,6 +656,7 @@ def run_case(ctx, spec, model_every=1):
             c = cur
             par = c["params"]                      # per network, layout order, numpy
             nneg = int(c["neg"].shape[0])
+            neg_np = c["neg"].numpy().astype(float)
             pos = [p.numpy() for p in c["pos"]]
             if kind == "positive":
                 pos_np = np_grad_sum(par[0], c["samples"].numpy()) / float(c["samples"].shape[0])
@@ -418,6 +674,8 @@ def run_case(ctx, spec, model_every=1):
             step_lrs = sorted(set(v[4] for v in seen.values()))
             lr_step = step_lrs[0] if step_lrs else float("nan")
             lrs.append(lr_step)
+            gsq = sum(float((v[1].double() ** 2).sum()) for v in seen.values() if v[1] is not None)
+            ctx.count("grad_norm:1e%+d" % (int(math.floor(math.log10(math.sqrt(gsq)))) if gsq > 0 else -99))
 
             def flat_seen(ni):
                 out = []
@@ -428,40 +686,73 @@ def run_case(ctx, spec, model_every=1):
                     out.append(v[1].numpy().ravel())
                 return np.concatenate(out)
 
-            # -- which chain end state enters the negative phase (observation only; see module docstring)
-            def want_am(vk_t):
-                nt = np_grad_sum(par[0], vk_t.numpy()) / float(nneg)
+            def want_am(vk_np):
+                nt = np_grad_sum(par[0], vk_np) / float(nneg)
                 return pos_am - nt, max(1.0, float(np.max(np.abs(pos_am))), float(np.max(np.abs(nt))))
 
+            def uses(vk_np):
+                if got_am is None:
+                    return False
+                w, sc = want_am(vk_np)
+                return tclose(got_am, w, 1e-9, 1e-12 * sc)
+
             got_am = flat_seen(0)
-            cands = chain_ends(c["gibbs"], c["neg"], spec["k"])
-            vk_t = None
-            if cands:
-                vk_t = cands[0]
-                if got_am is not None:
-                    for cd in cands:
-                        w, sc = want_am(cd)
-                        if tclose(got_am, w, 1e-9, 1e-12 * sc):
-                            vk_t = cd
-                            break
+            # -- which chain end state enters the negative phase
+            vk = None
+            neg_failed = False
+            if k_run == 0:
+                vk = neg_np
             else:
-                used = None
-                if got_am is not None:
-                    for g in c["gibbs"]:
-                        if g["vk"].dim() == 2 and g["vk"].shape[-1] == c["neg"].shape[-1]:
-                            w, sc = want_am(g["vk"])
-                            if tclose(got_am, w, 1e-9, 1e-12 * sc):
-                                used = g
-                                break
-                if used is not None:
-                    # the gradient demonstrably uses an observed chain that is not "k steps from the negative batch"
+                cnet = CondNet(par[0])
+                calls = c["bern"]
+                reads = []                                   # the draws read as exact block-Gibbs steps from the negative batch,
+                for i in range(max(1, len(calls))):          # starting at any recorded call (earlier draws may serve other purposes)
+                    states, reason = read_chain(cnet, calls[i:], neg_np, k_run)
+                    reads.append((states, reason))
+                    if len(states) > k_run and uses(states[k_run]):
+                        vk = states[k_run]
+                        break
+                    if got_am is None:
+                        break
+                states0, reason0 = reads[0]
+                if vk is not None:
+                    ctx.count("chain_read_from_bernoulli_draws")
+                elif any(uses(st) for states, _ in reads for st in states[1:]):
+                    # every draw leading to that state was an observed exact conditional: the gradient uses the visible state
+                    # after another number (>= 1) of exact steps
+                    j = [jj for states, _ in reads for jj, st in enumerate(states) if jj >= 1 and uses(st)][0]
+                    neg_failed = True
                     ctx.require("negative phase uses the states reached by k Gibbs steps from the negative batch", False, bcase,
-                                {"k": spec["k"], "observed_chains": [{"steps": g["k"], "starts_from_neg_batch": same_values(g["init"], c["neg"])}
-                                                                      for g in c["gibbs"]]})
+                                {"k": k_run, "the gradient uses the visible state after this many exact block-Gibbs steps": j})
+                elif reason0 is None and len(states0) > k_run:
+                    # every draw is an exact conditional and k complete steps were made: these ARE the states reached by k steps
+                    vk = states0[k_run]
+                    ctx.count("chain_read_from_bernoulli_draws")
                 else:
+                    # not observable draw by draw (draws made by other means, or not the exact conditionals of a k-step chain
+                    # from the negative batch): this alone proves nothing.  Learn vk from the gibbs_steps wrapper if possible
+                    # (for the exact gradient formula) and let the STATISTICAL LAW TEST decide the law after the run.
+                    for cd in chain_ends(c["gibbs"], c["neg"], k_run):
+                        if uses(cd.numpy().astype(float)):
+                            vk = cd.numpy().astype(float)
+                            break
                     ctx.count("vk_unobserved")
-            if vk_t is not None:
-                w, sc = want_am(vk_t)
+                    ctx.count("vk_unobserved:" + ("no_bernoulli_calls" if not calls else "draws_not_readable_as_k_exact_steps"))
+                    if flags["need_stat"] is None:
+                        flags["need_stat"] = {"k": k_run, "start": neg_np[0].tolist(), "why": reason0 or "fewer than k complete steps drawn"}
+            # -- the chain end states are 0/1
+            if vk is not None:
+                ctx.require("chain end states are 0/1", is01(vk), bcase, {"k": k_run})
+            elif got_am is not None and not neg_failed:
+                # vk itself was not observed: read the sum over the chain of v_j off the gradient
+                i0, i1 = vb_slice(par[0])
+                S = (got_am[i0:i1] - pos_am[i0:i1]) * float(nneg)
+                tolS = 1e-7 * max(1.0, float(nneg)) * max(1.0, float(np.max(np.abs(pos_am[i0:i1]))))
+                ctx.require("chain end states are 0/1: visible-bias block of (grad - positive phase)*|neg_batch| is an integer vector in [0, |neg_batch|]",
+                            bool(np.all(np.abs(S - np.round(S)) <= tolS) and np.all(S >= -tolS) and np.all(S <= nneg + tolS)), bcase,
+                            {"sum_of_chain_end_states": S.tolist()[:12], "neg_size": nneg, "k": k_run})
+            if vk is not None:
+                w, sc = want_am(vk)
                 want = [w] + [p for p in pos[1:]]
                 scale = [sc] + [max(1.0, float(np.max(np.abs(p)))) for p in pos[1:]]
             else:
@@ -487,7 +778,8 @@ def run_case(ctx, spec, model_every=1):
                                 if ni == 0 else "phase gradient == positive phase only on its own parameter")
                         ctx.require(what, tclose(gr.numpy(), block, 1e-9, 1e-12 * scale[ni]), pc,
                                     {"got": gr.numpy().ravel().tolist()[:12], "want": block.ravel().tolist()[:12], "neg_size": nneg,
-                                     "pos_size": int(c["samples"].shape[0])})
+                                     "pos_size": int(c["samples"].shape[0]),
+                                     "norm_got": float(np.linalg.norm(gr.numpy())), "norm_want": float(np.linalg.norm(block))})
                     # -- SGD displacement and the untouched-in-between chain
                     upd = be.numpy() - lr_p * gr.numpy()
                     tol = 4.5e-16 * (np.abs(be.numpy()) + np.abs(lr_p * gr.numpy()))
@@ -501,20 +793,20 @@ def run_case(ctx, spec, model_every=1):
                                 np.array_equal(be.numpy(), par[ni][layouts[ni].index(name)]), pc)
             last_after = {key: v[3].numpy().copy() for key, v in seen.items()}
             # -- learning rate of this epoch (every param group that holds a parameter of the state)
-            lr_want = spec["lr"] if sched is None else steplr_ref(spec["lr"], sched["gamma"], sched["step_size"], epoch)
+            lr_want = run["lr"] if sched is None else steplr_ref(run["lr"], sched["gamma"], sched["step_size"], epoch)
             ctx.require("lr of epoch e follows the schedule (one scheduler step per completed epoch)",
                         bool(step_lrs) and all(math.isclose(x, lr_want, rel_tol=1e-12) for x in step_lrs), bcase,
                         {"lr": step_lrs, "want": lr_want, "epoch": epoch + 1})
             grads_by_epoch[epoch].append(np.concatenate([r.numpy().ravel() for r in c["ret"]]))
             # ------------------------------------------------------------ correspondence with the Coq model
-            if (bi - 1) % model_every == 0:
+            if (bi - 1) % model_every == 0 and not (big and bi > 1):
                 sh = [shapes_of(p) for p in par]
-                if vk_t is not None:
+                if vk is not None:
                     pos_l = [p.tolist() for p in pos]
                     if kind == "dm":
-                        mg = m.call("cbg_purification", *par[0], pos_l, c["neg"].numpy(), vk_t.numpy())
+                        mg = m.call("cbg_purification", *par[0], pos_l, neg_np, vk)
                     else:
-                        mg = m.call("cbg_binary", *par[0], pos_l, c["neg"].numpy(), vk_t.numpy())
+                        mg = m.call("cbg_binary", *par[0], pos_l, neg_np, vk)
                     ctx.agree_exact("compute_batch_gradients: number of vectors", len(c["ret"]), len(mg), bcase)
                     for ni in range(min(len(mg), len(c["ret"]))):
                         ctx.agree("compute_batch_gradients[%d]" % ni, c["ret"][ni], mg[ni], bcase, scale=scale[ni])
@@ -526,6 +818,7 @@ def run_case(ctx, spec, model_every=1):
                         for j, name in enumerate(layouts[ni]):
                             if (ni, name) in seen and seen[(ni, name)][1] is not None:
                                 gr = seen[(ni, name)][1].numpy()
+                                # the model slices compute_batch_gradients' RETURN value; the optimizer must see the same numbers
                                 ctx.agree_exact("vector_to_grads shape %s.%s" % (s.networks[ni], name), list(gr.shape), list(mts[j].shape), bcase)
                                 if list(gr.shape) == list(mts[j].shape):
                                     ctx.agree("vector_to_grads %s.%s" % (s.networks[ni], name), gr, mts[j], bcase, rtol=1e-15, atol=0.0)
@@ -553,19 +846,71 @@ def run_case(ctx, spec, model_every=1):
                     ctx.require("parameters after fit == parameters after the last optimizer step",
                                 np.array_equal(final[ni][j], last_after[(ni, name)]), dict(case, network=s.networks[ni], parameter=name))
     # whole-run machine: the model driven by the recorded gradient vectors
-    theta0 = np.concatenate([flat_of(p) for p in init_params])
-    thetaF = np.concatenate([flat_of(p) for p in final])
-    if sched is None:
-        r = m.call("cd_run", spec["lr"], 1.0, 1, 0, theta0, [[g.tolist() for g in ep] for ep in grads_by_epoch])
-    else:
-        r = m.call("cd_run", spec["lr"], sched["gamma"], sched["step_size"], 1, theta0, [[g.tolist() for g in ep] for ep in grads_by_epoch])
-    m_theta, m_nopt, m_nsched, m_trace, m_lrs = r
-    ctx.agree_exact("fit machine: optimizer steps", n_opt, int(m_nopt), case)
-    ctx.agree_exact("fit machine: scheduler steps", n_sched, int(m_nsched), case)
-    ctx.agree_exact("fit machine: step trace", trace, [int(x) for x in m_trace], case)
-    ctx.agree("fit machine: lr of every step", lrs, m_lrs, case, rtol=1e-12, atol=0.0)
-    ctx.agree("fit machine: final parameters", thetaF, m_theta, case, rtol=1e-9, atol=1e-12)
+    if not big:
+        theta0 = np.concatenate([flat_of(p) for p in init_params])
+        thetaF = np.concatenate([flat_of(p) for p in final])
+        if sched is None:
+            r = m.call("cd_run", run["lr"], 1.0, 1, 0, theta0, [[g.tolist() for g in ep] for ep in grads_by_epoch])
+        else:
+            r = m.call("cd_run", run["lr"], sched["gamma"], sched["step_size"], 1, theta0, [[g.tolist() for g in ep] for ep in grads_by_epoch])
+        m_theta, m_nopt, m_nsched, m_trace, m_lrs = r
+        ctx.agree_exact("fit machine: optimizer steps", n_opt, int(m_nopt), case)
+        ctx.agree_exact("fit machine: scheduler steps", n_sched, int(m_nsched), case)
+        ctx.agree_exact("fit machine: step trace", trace, [int(x) for x in m_trace], case)
+        ctx.agree("fit machine: lr of every step", lrs, m_lrs, case, rtol=1e-12, atol=0.0)
+        ctx.agree("fit machine: final parameters", thetaF, m_theta, case, rtol=1e-9, atol=1e-12)
     ctx.traces += 1
+    return True
+
+
+# ------------------------------------------------------------------------------------------ statistical law test
+def stat_case(ctx, st, ks, M=40000, why="fixed", fit_case=None):
+    """Direct compute_batch_gradients(k, data, M identical negative rows): every entry of the negative term is a mean of M
+    independent [-1, 0]-valued variables; its expectation under the exact k-step kernel is computed in numpy."""
+    import torch
+    spec = {"state": st["state"], "nv": st["nv"], "nh": st["nh"], "na": st["na"], "am": st["am"], "ph": st["ph"]}
+    par = [np.array(a, dtype=float) for a in st["am"]]
+    net = CondNet(par)
+    K, V = exact_kernel(net)
+    s0 = row_index(st["start"])
+    gradE = np.stack([np_grad_sum(par, V[i:i + 1]) for i in range(len(V))])         # (2^nv, num_pars)
+    eps = math.sqrt(math.log(2.0 / HOEFFDING_DELTA) / (2.0 * M))
+    nv = st["nv"]
+    data = torch.tensor(np.array([[1.0] * nv, [0.0] * nv]), dtype=torch.double)
+    bases = None if st["state"] == "positive" else np.array([["Z"] * nv, ["Z"] * nv])
+    neg = torch.tensor(np.repeat(np.array([st["start"]], dtype=float), M, axis=0), dtype=torch.double)
+    for k in ks:
+        seed = ctx.torch_seed()
+        s = build_state(spec)
+        case = {"call": "compute_batch_gradients (statistical law test)", "why": why, "state": st["state"], "nv": nv, "nh": st["nh"],
+                "na": st["na"], "am": st["am"], "ph": st["ph"], "k": k, "negative_rows": M, "start": st["start"], "torch_seed": seed}
+        ctx.case({"stat": st["state"], "k": k, "M": M, "am": st["am"], "start": st["start"]}, nontrivial=True)
+        ctx.count("statistical_law_test:%s:k=%d" % (st["state"], k))
+        args = (k, data, neg) if bases is None else (k, data, neg, bases)
+        ok, out = ctx.call("compute_batch_gradients (direct call)", case,
+                           lambda: (s.compute_batch_gradients(*args), s.positive_phase_gradients(data) if bases is None
+                                    else s.positive_phase_gradients(data, bases_batch=bases)))
+        if not ok:
+            continue
+        got, pos = out
+        neg_term = (pos[0] - got[0]).detach().numpy().astype(float)               # = sum_v grad E(v) / M
+        if len(got) > 1:
+            ctx.require("phase gradient == positive phase only on its own parameter", tclose(got[1].numpy(), pos[1].numpy(), 1e-12, 1e-15), case)
+        i0, i1 = vb_slice(par)
+        S = -neg_term[i0:i1] * float(M)
+        ctx.require("chain end states are 0/1: visible-bias block of (grad - positive phase)*|neg_batch| is an integer vector in [0, |neg_batch|]",
+                    bool(np.all(np.abs(S - np.round(S)) <= 1e-6 * M) and np.all(S >= -1e-6) and np.all(S <= M + 1e-6)), case,
+                    {"sum_of_chain_end_states": S.tolist(), "neg_size": M})
+        law = np.linalg.matrix_power(K, k)[s0]
+        expect = law @ gradE
+        dev = float(np.max(np.abs(neg_term - expect)))
+        j = int(np.argmax(np.abs(neg_term - expect)))
+        ctx.require("STATISTICAL TEST (Hoeffding, delta=1e-9 per entry): negative phase == expectation of grad E under the exact k-step Gibbs kernel from the negative batch",
+                    dev <= eps, case, {"entry": j, "got": float(neg_term[j]), "expected": float(expect[j]), "max deviation": dev, "bound": eps,
+                                       "mean of chain end states": (S / M).tolist(), "k-step law marginals": (law @ V).tolist()})
+        ctx.extra.setdefault("statistical_test", []).append({"state": st["state"], "k": k, "rows": M, "max_deviation": dev, "hoeffding_bound": eps, "why": why})
+        # correspondence: k = 0 form of the same call against the model (deterministic)
+    return
 
 
 # ------------------------------------------------------------------------------------------ direct vector_to_grads cases
@@ -632,9 +977,16 @@ def grid(ctx):
 def run(ctx):
     t0 = time.time()
     budget = 420 if ctx.thorough else 45
+    # 1. regimes the random stream rarely reaches: always first
+    for st in stat_fixed(ctx):
+        stat_case(ctx, st, [1, 2] if not ctx.thorough else [1, 2, 3], M=40000 if not ctx.thorough else 200000)
+    for label, sp in fixed_specs(ctx):
+        run_case(ctx, sp, label=label)
+    # 2. covering grid, direct vector_to_grads
     for (kind, k, pat) in grid(ctx):
-        run_case(ctx, rand_spec(ctx, kind, k, pat))
+        run_case(ctx, rand_spec(ctx, kind, k, pat, large=False))
     v2g_cases(ctx, 60 if ctx.thorough else 20)
+    # 3. random stream
     n_random = 4000 if ctx.thorough else 60
     for i in range(n_random):
         if time.time() - t0 > budget:
@@ -647,6 +999,10 @@ def search(ctx, broken, budget):
     """Wider oracle sweep when proof or correspondence broke."""
     t0 = time.time()
     n0 = len(ctx.failures)
+    for st in stat_fixed(ctx):
+        stat_case(ctx, st, [1, 2, 3], M=200000, why="search")
+        if len(ctx.failures) > n0:
+            return ctx.failures[n0]
     while time.time() - t0 < budget:
         run_case(ctx, rand_spec(ctx), model_every=4)
         if len(ctx.failures) > n0:
@@ -656,15 +1012,21 @@ def search(ctx, broken, budget):
     return None
 
 
-def shrink(ctx, rec):
-    """Try to reproduce the failure with one epoch / no scheduler / fewer samples; keep the smallest that still fails."""
-    case = rec.get("case", {})
-    if "data" not in case or "torch_seed" not in case:
-        return rec
+def _spec_of(case):
     spec = {k: case[k] for k in SPEC_KEYS}
     spec.update({k: case.get(k, d) for k, d in SPEC_DEFAULTS.items()})
+    return spec
+
+
+def shrink(ctx, rec):
+    """Try to reproduce the failure with one fit call / one epoch / no scheduler; keep the smallest that still fails."""
+    case = rec.get("case", {})
+    if "data" not in case or "torch_seed" not in case or not all(k in case for k in SPEC_KEYS):
+        return rec
+    spec = _spec_of(case)
     best = rec
-    for mod in ({"epochs": 1, "starting_epoch": 1}, {"epochs": 1, "starting_epoch": 1, "scheduler": None}):
+    for mod in ({"second": None}, {"second": None, "epochs": 1, "starting_epoch": 1},
+                {"second": None, "epochs": 1, "starting_epoch": 1, "scheduler": None}):
         trial = dict(spec, **mod)
         sub = _silent_ctx(ctx)
         try:
@@ -690,10 +1052,15 @@ def replay(ctx, rec):
     if case.get("call") == "vector_to_grads":
         v2g_cases(ctx, 40)
         return
+    if str(case.get("call", "")).startswith("compute_batch_gradients (statistical"):
+        print("replay of the statistical law test:", {k: case.get(k) for k in ("state", "nv", "nh", "na", "k", "negative_rows", "start")})
+        import torch
+        st = {k: case[k] for k in ("state", "nv", "nh", "na", "am", "ph", "start")}
+        stat_case(ctx, st, [case["k"]], M=case["negative_rows"], why="replay")
+        return
     if all(k in case for k in SPEC_KEYS):
-        print("replay of fit:", {k: case[k] for k in ("state", "nv", "nh", "na", "N", "pos_batch_size", "neg_batch_size", "k", "lr", "epochs", "scheduler")})
-        spec = {k: case[k] for k in SPEC_KEYS}
-        spec.update({k: case.get(k, d) for k, d in SPEC_DEFAULTS.items()})
-        run_case(ctx, spec)
+        print("replay of fit:", {k: case[k] for k in ("state", "nv", "nh", "na", "N", "pos_batch_size", "neg_batch_size", "k", "lr", "epochs", "scheduler")},
+              "second fit:", case.get("second"))
+        run_case(ctx, _spec_of(case))
     else:
         run(ctx)
